@@ -64,6 +64,12 @@ func (e DocumentError) Filename() string {
 	return e.file.Name()
 }
 
+// HasFile tells whether the error already refers to a file (which may have an
+// empty name).
+func (e DocumentError) HasFile() bool {
+	return e.file != nil
+}
+
 func (e DocumentError) Message() string {
 	return e.message
 }
